@@ -77,6 +77,13 @@ class C08(SessimProp):
     def gen_case(self, rng, tier, index):
         size = rng.randint(5, 16) if tier == "quick" else rng.randint(5, 30)
         defs, main = gen_prog(rng.fork("prog"), size=size)
+        if rng.chance(0.2):
+            # "same result OR ERROR": end the program in one of the runtime-error sites
+            import sites
+            key, imports, expr = rng.choice(sites.all_sites())
+            pdefs, top = sites.place(expr, rng.choice(sites.PLACEMENTS), tag="w")
+            defs = "\n".join(x for x in [imports, sites.LANG_DEFS, pdefs, defs] if x)
+            main = main[:-1] + [top]
         return {"defs": defs, "main": main, "plan_seed": rng.u64(), "tier": tier}
 
     # ---- running one plan -------------------------------------------
